@@ -123,3 +123,89 @@ func TestVerifC03S(t *testing.T) {
 		}
 	}
 }
+
+// C03 (schedules): faulted requests racing the active health-check loop. A backend that is
+// ejected by a failing request while its probe is in flight, an aborted response while probes
+// run, must never crash (panic / fatal unlock) or deadlock the proxy, and afterwards healthy
+// traffic is served again.
+type c03cParams struct {
+	Strategy string
+	Modes    []string
+}
+
+func c03cScenario(p c03cParams, bound int) vh.SScenario {
+	return vh.SScenario{Name: fmt.Sprintf("faults-vs-probes-%s-%v", p.Strategy, p.Modes), KeyPrefix: "C03/conc", Bound: bound, Params: p, Horizon: 3000, Body: func(x *vh.Exec) {
+		s := x.S
+		k := newKit(s, kitOpts{Strategy: p.Strategy, N: 2, PassiveThr: 1, Window: 10, Active: true,
+			Breaker: &config.CircuitBreakerConfig{Enabled: true, MaxRequests: 1, IntervalSeconds: 5, TimeoutSeconds: 3, FailureThreshold: 3, SuccessThreshold: 1}})
+		s.Settle()
+		recovered := ""
+		x.Check = func(v vrt.Verdict) (string, string, string, bool) {
+			if v.Kind != vrt.OK {
+				return recovered, "", "", false
+			}
+			if recovered != "ok" {
+				return recovered, "C03/conc/no-recovery-after-faults-racing-probes", "after faulted requests raced a probe round, healthy traffic is not served: " + recovered, true
+			}
+			return recovered, "", "", true
+		}
+		s.Branch(true)
+		var ths []*vrt.Thread
+		for i, m := range p.Modes {
+			i, m := i, m
+			ths = append(ths, s.Spawn(fmt.Sprintf("req-%s", m), func() { k.requestMode(fmt.Sprintf("10.0.0.%d", i+1), m) }))
+		}
+		ths = append(ths, s.Spawn("ticker", func() {
+			if tk := s.TickerByPeriod(5 * time.Second); tk != nil {
+				tk.Fire()
+			}
+		}))
+		s.Join(ths...)
+		s.Settle()
+		s.Branch(false)
+		s.AdvanceQuiet(11 * time.Second)
+		var seq []int
+		for i := 0; i < 5; i++ {
+			seq = append(seq, k.requestMode(fmt.Sprintf("10.8.0.%d", i), "ok").Status)
+		}
+		if seq[2] == 200 && seq[3] == 200 && seq[4] == 200 {
+			recovered = "ok"
+		} else {
+			recovered = fmt.Sprint(seq)
+		}
+	}}
+}
+
+func TestVerifC03Conc(t *testing.T) {
+	r := vres.Open("C03", racePart("Conc"))
+	defer func() {
+		if err := r.Close(); err != nil {
+			t.Fatal(err)
+		}
+	}()
+	if vres.ReplayPath() != "" {
+		var rp vh.SReplay
+		var p c03cParams
+		rp.Params = &p
+		if err := vres.LoadReplay(&rp); err != nil {
+			t.Fatal(err)
+		}
+		vh.ReplayS(c03cScenario(p, 0), rp.Choices)
+		return
+	}
+	bound := 1
+	strategies := []string{"round_robin", "ip_hash"}
+	if vres.Thorough() {
+		bound = 2
+		strategies = allStrategies
+	}
+	i := 0
+	for _, st := range strategies {
+		for _, m := range [][]string{{"500"}, {"abort"}, {"refuse"}, {"500", "abort"}} {
+			if vh.MyShard(i) {
+				vh.RunS(r, "TestVerifC03Conc", c03cScenario(c03cParams{st, m}, bound))
+			}
+			i++
+		}
+	}
+}
